@@ -58,6 +58,11 @@ impl ZipStreamVisitor for V {
         m.insert("is_dir".into(), json!(md.is_dir()));
         m.insert("nfile_so_far".into(), json!(self.nfile));
         self.evs.push(m);
+        // the streaming metadata's own sanitising accessors (C06)
+        let mut p = crate::rexec::path_facts(md.name(), md.enclosed_name(), md.mangled_name());
+        p.insert("ev".into(), json!("SPath"));
+        p.insert("i".into(), json!(self.nmeta));
+        self.evs.push(p);
         Ok(())
     }
 }
